@@ -40,6 +40,11 @@ CHECKS = {
     technique="TLA+ spec RpycAsync (one AsyncResult in discrete virtual time: reply, unrelated traffic, expiry, queries, callbacks, wait) model-checked by TLC; TLC -simulate behaviours replayed on a real AsyncResult/Connection under a virtual clock with the program's observation log compared with the specification's; sync_request and timed() driven through the same behaviours",
     text="TLC exhausts all orderings within T=3 of reply arrival, unrelated traffic, expiry and the program's operations for finality, callbacks-once-in-order and timeout timing; each simulated behaviour is a test of the real AsyncResult: results of ready/error/expired/wait and the instant of every return or raise must equal the specification's observation log",
     note="discrete virtual time (1 tick = 1 s); 'reply came first' = processed before the expiry instant; bounded behaviours (depth <= 22)"),
+ "C05": dict(
+    spec="RpycChannel", design="5/C05",
+    technique="TLA+ spec RpycChannel (writer/reader over a fragmenting, stalling, failing byte stream; byte offsets, write splitting, header/body read loops) model-checked by TLC; every edge of the small-constant state graph dictated as transport decisions to the real Channel + SocketStream/PipeStream over fake sockets / fake os.read-write with state comparison; real-size transfers with random fragmentation whose I/O call logs are trace-validated by TLC",
+    text="TLC exhausts all splits of every send and recv, transient timeouts/EAGAIN and a fault at every position for CHUNK=8/THRESHOLD=2 packets (single-write, multi-write, empty, compressed) for frame alignment, no over-read, prefix delivery and clean failure; the real code is driven through every such decision and compared (bytes moved, size of every I/O request, packets delivered, closed flags, exception class), and at real sizes (0..128001, around 3000 and 64000) the logged I/O calls must be a behaviour of the spec and the bytes received must equal the bytes sent",
+    note="reliable in-order byte stream until failure; one writer and one reader per direction; zlib bodies compared after decompression"),
 }
 NA = {}
 
